@@ -14,73 +14,98 @@ TRUSTED_BASE = [
 
 ALL_OPS = None
 
+LOOKUPS = ['get', 'get_entry', 'peek', 'peek_entry', 'contains', 'remove', 'remove_entry', 'remove_lru', 'remove_mru', 'insert', 'get_lru', 'peek_lru', 'peek_mru', 'touch']
+CAPOPS = ['reserve', 'try_reserve', 'shrink_to', 'shrink_to_fit']
+INS = ['insert', 'try_insert']
+ITERS = ['iter', 'drain', 'into_iter']
+
+# comps: a component name (judged on every operation, or on cfg['ops'] when given) or (component, [operations] | None).
+# A property's alarm is raised only by components that state the property itself: absolute monitors (mon_*) evaluated on
+# the implementation's observations, or equality with the model's step where the property IS that functional statement.
 PROPS = {
     'C01': dict(
-        comps=['fault', 'max', 'mon_c01'],
+        comps=['mon_c01', 'fault'],
         theorems=['C01_bound', 'C01_arith', 'C01_monitor_sound'],
         assumptions=['entry_size of every presented pair fits in usize (DESIGN.md 9.2)', '0 < size_of::<Entry<K,V>>() and size_of::<V>() <= size_of::<Entry<K,V>>()'],
     ),
     'C02': dict(
-        comps=['fault', 'cur', 'sizes', 'mon_c02'],
+        comps=['mon_c02', 'api_len'],
         theorems=['C02_sum', 'C02_monitor_sound'],
         assumptions=['key and value sizes change only inside mutate (the harness types guarantee it)'],
     ),
     'C03': dict(
-        comps=['evict_order', 'keyset', 'drops', 'fault'],
+        comps=['evict_order', 'keyset'],
         theorems=['C03_insert', 'C03_exact_fit', 'C03_mutate', 'C03_set_max', 'C03_only_when'],
         assumptions=['eviction order is observed through the order in which the evicted keys are dropped'],
     ),
-    'C05': dict(
-        comps=['order', 'api'],
-        theorems=['C05_order', 'C05_observers', 'C05_peeks'],
-        assumptions=['iteration forward and reversed, keys(), values(), peek_lru/peek_mru and Debug are cross-checked against the pointer walk of the hook after every step (flag api)'],
+    'C04': dict(
+        comps=[('res', LOOKUPS), 'keyset', 'mon_c04', 'api_map'],
+        theorems=['C04_nodup', 'C04_outputs', 'C04_insert_returns_old', 'C04_step'],
+        assumptions=['hashbrown finds an entry iff present under any hash function when the same hash is presented as at insertion (its contract; exercised with 5 hashers incl. constant, and Borrow<KeyId> lookups)',
+                     'after every step every key of the universe is looked up through contains/peek/peek_entry in borrowed and owned form and compared with the pointer walk (flag api_map)'],
     ),
+    'C05': dict(
+        comps=['order', 'api_order'],
+        theorems=['C05_order', 'C05_observers', 'C05_peeks'],
+        assumptions=['iteration forward and reversed, keys(), values(), peek_lru/peek_mru and Debug are cross-checked against the pointer walk of the hook after every step (flag api_order)'],
+    ),
+    'C06': dict(
+        comps=['mon_c06', 'drop_once'],
+        theorems=['C06_step', 'C06_exactly_once', 'C06_no_leak_without_forget'],
+        assumptions=['object identity = token carried by the instrumented key/value types; Drop logs the token'],
+    ),
+    'C07': dict(
+        comps=['mon_c07', 'addr_stable', 'api_map', 'api_len', 'api_order'],
+        theorems=['C07_unhinge', 'C07_set_head', 'C07_touch', 'C07_realloc', 'C07_traversal', 'C07_monitor_sound'],
+        assumptions=['Layer B faults on access to unallocated/freed nodes and on reading moved-out or uninitialised payloads; aliasing-model UB is outside the model (DESIGN.md 6, 9.1)',
+                     'the monitor ri_check (proved sound: C07_monitor_sound) is evaluated on the pointer graph the dangling-safe hook walker reports after every step; bucket addresses of surviving entries must be stable unless the table was rebuilt'],
+    ),
+    'C08': dict(engine='memsize_check', comps=[],
+        theorems=['C08_bulk', 'C08_mem', 'C08_container', 'C08_wrapper', 'C08_depth', 'C08_depth_empty_sections', 'C08_flat_iterator'],
+        assumptions=['no Mutex/RwLock is poisoned (DESIGN.md 9.4)', 'iterators handed to the bulk helpers are pure']),
+    'C09': dict(engine='memsize_check', comps=[],
+        theorems=['C09_exact', 'C09_upper', 'C09_map', 'C09_set', 'C09_ref'],
+        assumptions=['no Mutex/RwLock is poisoned (DESIGN.md 9.4)']),
     'C10': dict(
-        comps=['res', 'atomic', 'keyset', 'order', 'ents', 'sizes', 'cur', 'max', 'drops', 'evict_order', 'fault'],
-        ops=['insert', 'try_insert'],
+        comps=['res', 'atomic', 'keyset', 'order', 'ents', 'sizes', 'cur', 'max', 'drops', 'evict_order'],
+        ops=INS,
         theorems=['C10_insert', 'C10_try_insert'],
     ),
     'C11': dict(
-        comps=['res', 'closure_calls', 'keyset', 'order', 'ents', 'sizes', 'cur', 'max', 'drops', 'evict_order', 'fault', 'mon_c02'],
+        comps=['res', 'closure_calls', 'keyset', 'order', 'ents', 'sizes', 'cur', 'max', 'drops', 'evict_order'],
         ops=['mutate'],
         theorems=['C11_absent', 'C11_too_large', 'C11_ok'],
         assumptions=['that the closure is not called for an absent key is observed by the harness (closure call counter), not part of the Layer A theorem'],
     ),
-    'C04': dict(
-        comps=['res', 'keyset', 'api', 'mon_c04', 'fault'],
-        theorems=['C04_nodup', 'C04_outputs', 'C04_insert_returns_old', 'C04_step'],
-        assumptions=['hashbrown finds an entry iff present under any hash function when the same hash is presented as at insertion (its contract; exercised with 5 hashers incl. constant, and Borrow<KeyId> lookups)',
-                     'after every step every key of the universe is looked up through contains/peek/peek_entry in borrowed and owned form and compared with the pointer walk (flag api)'],
-    ),
-    'C06': dict(
-        comps=['mon_c06', 'drops', 'drop_once'],
-        theorems=['C06_step', 'C06_exactly_once', 'C06_no_leak_without_forget'],
-        assumptions=['object identity = token carried by the instrumented key/value types; Drop logs the token'],
-    ),
     'C12': dict(
-        comps=['res', 'drops', 'keyset', 'order', 'ents', 'sizes', 'cur', 'max', 'mon_c06', 'fault'],
-        ops=['iter', 'drain', 'into_iter'],
-        comps_any=['api'],
+        comps=['res', 'drops', 'keyset', 'order', 'ents', 'sizes', 'cur', 'max', 'mon_c06'],
+        ops=ITERS,
+        comps_any=['api_order'],
         theorems=['C12_split', 'C12_fused', 'C12_iter', 'C12_drain', 'C12_into_iter'],
     ),
     'C13': dict(
-        comps=['cap', 'clone_cap', 'mon_c13', 'growth'],
-        comps_any=[],
+        comps=['cap', 'clone_cap', 'mon_c13', 'growth'] + [(c, CAPOPS) for c in ('res', 'keyset', 'order', 'ents', 'sizes', 'cur', 'max', 'drops')],
         theorems=['C13_transparent', 'C13_reserve', 'C13_try_reserve_fail', 'C13_shrink', 'C13_shrink_to_fit', 'C13_with_capacity_step', 'C13_auto_growth'],
         assumptions=['Layer T is a demonic abstraction of hashbrown: tombstone creation/reuse is an oracle resolved from the observed capacity; every observed (len, capacity, buckets) transition must be one the model allows',
                      'allocator refusal is injected by the harness allocator for try_reserve'],
     ),
     'C14': dict(
-        comps=['res', 'keyset', 'order', 'ents', 'sizes', 'cur', 'max', 'clone_cap', 'clone_fresh', 'drops', 'mon_c01', 'mon_c02', 'mon_c07', 'fault'],
+        comps=['res', 'keyset', 'order', 'ents', 'sizes', 'cur', 'max', 'clone_cap', 'clone_fresh', 'drops'],
         ops=['clone'],
         comps_any=['oth'],
         theorems=['C14_equal', 'C14_fresh', 'C14_inv'],
         assumptions=['independence is observed as: after every operation on one cache the structural fingerprint (addresses, links, sizes, scalars) of every other live cache is bit-for-bit unchanged (flag oth)'],
     ),
     'C15': dict(
-        comps=['visits', 'res', 'keyset', 'order', 'ents', 'sizes', 'cur', 'max', 'drops', 'fault'],
+        comps=['visits', 'res', 'keyset', 'order', 'ents', 'sizes', 'cur', 'max', 'drops'],
         ops=['retain'],
         theorems=['C15_retain'],
+    ),
+    'C17': dict(
+        comps=['drop_once', ('mon_c06', ITERS), ('res', ITERS), ('drops', ITERS), ('ents', ['drain']), ('cur', ['drain']), ('keyset', ['drain']),
+               ('mon_c07', ['drain']), ('mon_c02', ['drain']), ('mon_c01', ['drain'])],
+        theorems=['C17_taking_run', 'C17_drain_forget', 'C17_into_iter_forget'],
+        assumptions=['mem::forget of Drain / IntoIter / IntoKeys / IntoValues after every generated prefix of next/next_back calls, followed by further use and drop of the cache; borrowing iterators own nothing, forgetting them is a no-op'],
     ),
     'C18': dict(engine='sig_check', level='translation_validation', comps=[],
         theorems=['C18_send', 'C18_sync', 'C18_send_exact', 'C18_sync_exact', 'C18_not_auto', 'C18_manual_impls', 'C18_borrow', 'C18_borrow_nonvacuous']),
@@ -94,9 +119,9 @@ PROPS = {
         comps_any=['oth'],
     ),
     'C20': dict(
-        comps=['hashes_le', 'mon_c20'],
+        comps=['mon_c20'],
         theorems=['C20_bound', 'C20_clone', 'C20_drop_into_iter'],
-        assumptions=['the implementation may hash LESS than the model (upper-bound property transfers under <=); hashbrown does not hash internally on the paths used'],
+        assumptions=['the bound is evaluated on the implementation from observed quantities (hash calls of the instrumented key, departures, whether the table was rebuilt); that the implementation hashes no more than the model is logged, not required'],
     ),
 }
 
@@ -120,4 +145,8 @@ MANIFEST_TEXT = {
     'C20': dict(text='Theorem C20_bound for every operation, state and oracle: hashes + len after <= 2 + len before + added + (rebuilt ? len : 0), zero for traversals/clear/drain/LRU-MRU peeks/get_lru, rebuild only for reserve/try_reserve/shrink*/growing insertion; C20_clone. The implementation count of Hash::hash calls per API call must be <= the model count and satisfy the extracted bound c20_mon.', note=_A, technique=_T),
     'C18': dict(engine='coq-gen+rustc', text='Tables regenerated from /repo/src on every run by a syn translator (impl bounds, field types, signatures with the origin of every returned lifetime); Coq theorems over the finite generated tables (C18_send/C18_sync: the written bounds are exactly K,V,S; C18_not_auto: a raw pointer blocks the auto impls; C18_borrow: every returned reference/borrowing iterator carries the receiver lifetime); rustc is the oracle: ~290 generated probe programs (full (Send,Sync) witness cube per parameter, misuse/legitimate program per signature row) must be accepted/rejected as the tables predict.', note='rustc is the oracle for trait solving and borrow checking; the translator is syntactic; theorems are over generated finite tables (closed by computation)', technique='generated Coq tables + theorems, validated against rustc accept/reject of generated probe programs', ref='DESIGN.md section 7 (C18), coq/Gen/README.md'),
     'C19': dict(text='(1) Theorem C19_model_readonly: every &self operation of the model is the identity on the whole state; (2) Theorem C19_static_no_write over the call graph regenerated from the source: no write primitive is reachable from any &self operation, for all inputs; (3) on the implementation the structural fingerprint (addresses, links, sizes, scalars, geometry) read through the hook is compared before and after every &self call, for present and absent keys, and the fingerprint of every other cache after every operation.', note=_A + '; static graph is a syntactic over-approximation; thread schedules are not executed, the constant-heap argument covers them', technique='Coq proof over the model + Coq proof over a call graph generated from the source + differential fingerprint comparison'),
+    'C08': dict(engine='coq-layerM+probe', text='Layer M model of src/mem_size.rs (type/value universe mirroring every override and its delegation, sizeof a Section variable): theorems C08_bulk (all four bulk helpers = element-wise sums for every nesting and list), C08_mem, C08_container, C08_wrapper, C08_depth (the flat iterator uses one frame whatever the number of empty sections), C08_flat_iterator. Tied to the code by a probe over ~300 concrete nested types with values built by random capacity scripts, eight iterator shapes, and 10^6-10^7-element runs on a 256 KiB stack in debug and release; the model is evaluated on the same terms by vm_compute.', note='Coq kernel, no axioms; sizeof is a parameter instantiated by measured numbers; totality of a Gallina function says nothing about the Rust stack: the stack clause is decided by the frame-depth model plus the large-count runs; poisoned locks excluded (DESIGN.md 9.4)', technique='Coq proof by induction on the type universe + model evaluated in Coq against the real trait implementations (differential)', ref='DESIGN.md section 7 (C08), coq/M/README.md'),
+    'C09': dict(engine='coq-layerM+probe', text='Theorems C09_exact (for the exact class of constructors and any nesting, heap_size = alloc_bytes, the ground-truth model of what std keeps allocated, under len <= cap well-typedness), C09_upper, C09_map / C09_set (bounds for hash tables), C09_ref. alloc_bytes is validated against a counting global allocator on every probed value, and the real heap_size is compared with both.', note='Coq kernel, no axioms; alloc_bytes is a model of std allocation behaviour validated (exactly, on every probed value) against the counting allocator; hashbrown bucket counts recovered from capacity()', technique='Coq proof + model evaluated in Coq against the real implementation and a counting allocator (differential)', ref='DESIGN.md section 7 (C09), coq/M/README.md'),
+    'C07': dict(text='Layer B (heap of nodes with links, recorded size and payload ownership; any access to a freed node or a moved-out payload faults): theorems C07_unhinge / C07_set_head / C07_touch (list surgery at every position keeps the representation invariant RI and never faults), C07_realloc (for EVERY table iteration order the reallocation loop re-links all entries, frees every old bucket, never touches freed memory, and leaves the abstract list unchanged), C07_traversal (cursors never step onto the seal). The monitor ri_check, proved sound (C07_monitor_sound), is evaluated on the implementation pointer graph read by the dangling-safe hook after every step, with address stability and lookups-hit-the-linked-bucket checks.', note='Coq kernel, no axioms; Layer B transliterates the list surgery and the reallocation loop by hand; the composition of whole public operations from these primitives is argued in DESIGN.md, not proved; Rust aliasing rules not modelled', technique='Coq proof (separation-style reasoning on a functional heap, induction over arbitrary iteration orders) + extracted monitor on hook snapshots'),
+    'C17': dict(text='Theorem C17_taking_run (Layer B, payload ownership): for every pattern and prefix a taking iterator never reads a moved-out payload, moves out exactly what it yielded, each once, leaves all other buckets live and links untouched; C17_drain_forget (Layer A): a forgotten Drain leaves an empty consistent cache, drops nothing, leaks exactly the unconsumed; C17_into_iter_forget. On the implementation every generated trace forgets iterators after random prefixes and keeps using and dropping the caches; any token dropped twice or dropped after being handed back is a violation.', note=_A + '; borrowing iterators own nothing', technique=_T),
 }
